@@ -73,6 +73,9 @@ THEOREMS = [
     "Verif.C02.answers_history_independent",
     "Verif.C02.first_query_is_get_image",
     "Verif.C02.query_colour_idempotent",
+    "Verif.C02.seek_regular_second_line",
+    "Verif.C02.first_line_repair",
+    "Verif.C02.fresh_after_repair",
 ]
 RULE = (
     "corpus (documented interleaved-discard wave, non-constant samples per pixel, truncated colours) + exhaustive small "
@@ -409,6 +412,45 @@ def public_sum(case):
             return errname(ex)
 
 
+def reg_parts(case):
+    """regular info wave (builders_confocal.infowave: lead-in, n lines of P pixels of k samples, d dead samples behind
+    every line), a red stream covering it (sample i counts 2^(i mod 40)) and a green one starting `late` samples late"""
+    iw = bc.infowave(case["P"], case["n"], case["k"], lead_in=case["lead"], dead=case["d"])
+    red = [1 << (i % 40) for i in range(len(iw))]
+    return iw, red, red[case["late"]:]
+
+
+def reg_in_scope(case):
+    return case["P"] >= 2 and case["n"] >= 2 and case["d"] >= 1 and case["k"] >= 1
+
+
+def impl_regrepair(case):
+    """green (starts inside the first line) is read first: the kymograph repairs its start; then red (covers everything).
+    Observed: the wave itself + the start after the repair (or the exception), and the red image of the repaired item"""
+    iw, red, green = reg_parts(case)
+    e = {"start": bc.START, "dt": bc.DT}
+    with bc.quiet():
+        try:
+            obj = bc.make_kymo(iw, case["P"], {"red": red, "green": green}, lead={"green": -case["late"]})
+        except Exception as ex:
+            return [errname(ex)] * (2 if reg_in_scope(case) else 1)
+        err = None
+        try:
+            obj.get_image("green")
+        except Exception as ex:  # the repair itself failed, or it landed before the green stream begins (outside the
+            err = errname(ex)  # theorems' scope): the start it left behind is still what is compared
+        where = show_start(obj, e)
+        if err is not None and where == "0":
+            where = err
+        out = [enc_list(iw) + " " + where]
+        if reg_in_scope(case):
+            try:
+                out.append(show_img(obj.get_image("red")))
+            except Exception as ex:
+                out.append(errname(ex))
+    return out
+
+
 def impl(case):
     if case["op"] == "window":
         return impl_window(case)
@@ -416,6 +458,8 @@ def impl(case):
         return impl_seq(case)
     if case["op"] == "sum":
         return [direct_sum(case), public_sum(case)]
+    if case["op"] == "regrepair":
+        return impl_regrepair(case)
     e = explicit(case)
     out = []
     with bc.quiet():
@@ -463,6 +507,12 @@ def ops(case):
         return [f"c02.kymo {case['P']} {enc_list(iwc)} 0 {enc_chan(chans[c])}" for c in COLORS]
     if case["op"] == "sum":
         return [f"c02.sum {enc_list(case['data'])} {enc_list(case['iw'])} {enc_list(case['shape'])}"] * 2  # direct, public
+    if case["op"] == "regrepair":
+        a = f"{case['lead']} {case['k']} {case['d']} {case['P']} {case['n']}"
+        out = [f"c02.regwave {a}"]
+        if reg_in_scope(case):
+            out.append(f"c02.regafter {a} {enc_list(reg_parts(case)[1])}")
+        return out
     e = explicit(case)
     iw = enc_list(e["iw"])
     lead = e.get("lead") or {}
@@ -716,6 +766,17 @@ def oracle(case, ia):
         return None
     if case["op"] == "seq":
         return oracle_seq(case, ia)
+    if case["op"] == "regrepair":
+        # the item as it is after the repair: red covers every sample, so its image is the reconstruction of the info
+        # wave from the object's (new) start - whatever that start is
+        if len(ia) > 1 and " " in ia[0] and ia[0].split(" ")[1].isdigit():
+            iw, red, _ = reg_parts(case)
+            off = int(ia[0].split(" ")[1])
+            x = expected_colour({"kind": "kymo", "P": case["P"], "iw": iw[off:], "channels": {"red": red[off:]}, "lead": {}}, "red")
+            if x is not None and ia[1] != show_expected(x[0]):
+                return (f"{x[1]}: regular kymograph {case}: after the first-line repair the start is sample {off}; red is "
+                        f"{ia[1][:200]}, the reconstruction from that start is {show_expected(x[0])[:200]}")
+        return None
     e = explicit(case)
     if any(c > 2 for c in e["iw"]):
         return None
@@ -758,7 +819,7 @@ def oracle(case, ia):
 
 
 def nontrivial(case, ia):
-    if case["op"] == "window":
+    if case["op"] in ("window", "regrepair"):
         return True
     if case["op"] == "sum":
         seen = [a for a in ia if a != UNOBSERVED]
@@ -789,6 +850,9 @@ def tags(case, r):
     if case["op"] == "window":
         t["kind"] = "kymo"
         return t
+    if case["op"] == "regrepair":
+        t["kind"] = "kymo"
+        return t
     if case["op"] != "sum":
         e = explicit(case)
         t["kind"] = e["kind"]
@@ -798,6 +862,11 @@ def tags(case, r):
 
 
 def shrink(case):
+    if case["op"] == "regrepair":
+        for key, lo in (("n", 1), ("P", 1), ("k", 1), ("lead", 0), ("d", 0), ("late", 1)):
+            if case[key] > lo:
+                yield dict(case, **{key: case[key] - 1})
+        return
     if case["op"] == "window":
         if case["l1"] - case["l0"] > 1:
             yield dict(case, l1=case["l0"] + 1)
@@ -978,6 +1047,26 @@ def seq_small_scope(quick):
                                                **gen_case("seq", lay, i, modes=modes, lateness=lateness, style="ids", fast=i % 3)}
 
 
+def reg_small_scope(quick):
+    """regular kymographs (the family of seek_regular_second_line / first_line_repair / fresh_after_repair) with a green
+    stream starting 1 sample late, in the middle of the first line and on the first sample of the second line; plus
+    the layouts outside the theorems' hypotheses (one pixel per line, no dead time, a single line)"""
+    i = 0
+    for lead in (0, 1, 2):
+        for k in (1, 2, 3):
+            for d in (0, 1, 2, 3):
+                for P in (1, 2, 3, 4):
+                    for n in (1, 2, 3, 4):
+                        s2 = lead + P * k + d
+                        for late in sorted({1, max(1, s2 // 2), s2}):
+                            i += 1
+                            if quick and i % 4:
+                                continue
+                            if late >= lead + n * (P * k + d):
+                                continue
+                            yield {"stream": "small-scope", "op": "regrepair", "lead": lead, "k": k, "d": d, "P": P, "n": n, "late": late}
+
+
 SEQ_MODES = ["full", "full", "absent", "absent", "short", "long", "early", "early+short", "after", "before"]
 
 
@@ -1019,6 +1108,7 @@ def cases(tier, rng):
     yield from corpus_cases()
     yield from window_cases(rng.fork("c02-window"), 120 if quick else 3000)
     yield from seq_small_scope(quick)
+    yield from reg_small_scope(quick)
     yield from seq_random(rng.fork("c02-seq"), 500 if quick else 8000)
 
     # ---- (a) every info wave over {0,1,2} up to a length, direct call
@@ -1170,6 +1260,7 @@ def extra_coverage(results):
     seq_n = seq_queries = seq_repaired = seq_hits = seq_fresh = 0
     totals_ok = totals_err = 0
     seq_final_start = {}
+    reg_seen = {}
     branches = {"no-data:zeros": 0, "no-data:no-boundary": 0, "shared-span:walk": 0, "shared-span:no-boundary": 0,
                 "starts-inside-scan": 0, "size-mismatch/other": 0}
     for r in results:
@@ -1179,6 +1270,12 @@ def extra_coverage(results):
             if a.endswith("Error"):
                 errs[a] = errs.get(a, 0) + 1
         if c["op"] == "window":
+            continue
+        if c["op"] == "regrepair":
+            key = "in-scope" if reg_in_scope(c) else "P=1" if c["P"] < 2 else "one-line" if c["n"] < 2 else "no-dead-time"
+            w = r["impl"][0].split(" ")[-1]
+            land = "error" if not w.isdigit() else "second-line" if int(w) == c["lead"] + c["P"] * c["k"] + c["d"] else "elsewhere"
+            reg_seen[key + ":" + land] = reg_seen.get(key + ":" + land, 0) + 1
             continue
         if c["op"] == "seq":
             seq_n += 1
@@ -1263,6 +1360,7 @@ def extra_coverage(results):
         "sequences_where_a_colour_changed_shape": seq_repaired,
         "sequences_replayed_query_by_query_on_new_objects": seq_fresh,
         "sequence_final_start": seq_final_start,
+        "regular_kymograph_repairs": reg_seen,
         "image_totals_compared": totals_ok,
         "image_total_errors_compared": totals_err,
         "colour_pixels_branches": branches,
